@@ -72,7 +72,11 @@ def run(ctx):
     variants += [json.dumps(d, sort_keys=True) for d in fam]
     ks = [0, 1, 2, 3, 5, 7, 11, 13] if q else list(range(0, 14)) + [21, 50]
     seeds = [0, 1] if q else [0, 1, 2, 3]
-    tasks = [(v, k, s) for v in variants for k in ks for s in seeds]
+    # the adversarial-name variants depend on where objects land in memory: many more allocation patterns
+    nadv = len(variants) - len(fam)
+    ks_adv = list(range(0, 20)) + [23, 29, 31, 37] if q else list(range(0, 40))
+    tasks = [(v, k, s) for v in variants[:nadv] for k in ks_adv for s in seeds] + \
+            [(v, k, s) for v in variants[nadv:] for k in ks for s in seeds]
     res = passcheck.pmap(_run, tasks, procs=16)
     byvar = {}
     for r in res:
@@ -116,7 +120,7 @@ def run(ctx):
                nontrivial=len(tasks),
                bound='%d designs (adversarial names: tied natural-sort keys, names needing sanitising, '
                      'write ports sharing an enable; plus family designs) x allocation gaps %s x '
-                     'PYTHONHASHSEED %s, each in a fresh process; sha256 of verilog (3 reset modes), '
+                     'PYTHONHASHSEED %s (24 / 40 gaps for the adversarial-name designs), each in a fresh process; sha256 of verilog (3 reset modes), '
                      'testbench (memories with non-default initial contents), vcd, print_trace (2 modes), simulation trace, '
                      'Output traces after optimize() and synthesize() (equal across runs and equal to the source)'
                      % (len(variants), ks, seeds), sample=dict(variant=variants[0], k=ks[1], hashseed=seeds[0]))
